@@ -18,6 +18,7 @@ type C08Case struct {
 	Position string `json:"position"`
 	Syntax   string `json:"syntax"`
 	Debug    bool   `json:"debug"`
+	Flaw     string `json:"flaw,omitempty"`
 	Profile  string `json:"profile"`
 	Data     string `json:"data"`
 }
@@ -127,6 +128,12 @@ func embedRego(position, code, helper string) string {
 }
 
 var c08Positions = []string{"rego", "regoModule", "code-message", "not", "and", "or", "if", "then", "else", "not-else", "path-rego", "nested", "nested-or", "atLeast", "atMost", "exactly", "warning-level", "second-validation", "helper", "extensions-only"}
+var c08Flaws = map[string]string{
+	"every-as-name": "every := count($node)", "in-as-name": "in = \"x\"", "if-as-name": "if := 1", "contains-as-name": "contains := 2",
+	"syntax-error": "c08_bad ((", "type-error": "c08_t := 1 + \"a\"", "unknown-function": "c08_u := c08_nope(1)", "unsafe-var": "c08_z > 1",
+	"unterminated-string": "c08_s := \"abc", "stray-brace": "}",
+}
+
 var c08Syntaxes = []string{"assign", "comprehension", "argument", "statement"}
 
 func genC08(g *G, n int, out io.Writer, full bool) {
@@ -173,6 +180,24 @@ func genC08(g *G, n int, out io.Writer, full bool) {
 				for _, dbg := range debugs {
 					enc.Encode(C08Case{Op: "c08", Id: id, Builtin: b.Name, Position: pos, Syntax: syn, Debug: dbg, Profile: prof, Data: "[]"})
 					id++
+				}
+				if forbidden[b.Name] && (syn == "assign" || syn == "statement") {
+					// the same embedding in a module that is objectionable for a second reason (names that are keywords under the
+					// imported future keywords, syntax and type errors, unknown functions, unsafe variables, a clashing rule):
+					// whatever the compiler says first, the profile must not come out accepted
+					for fname, flaw := range c08Flaws {
+						if !full && g.n(100) >= 45 {
+							continue
+						}
+						fcode := flaw + "\n" + code
+						fhelper := helper
+						if helper != "" {
+							fhelper = strings.Replace(helper, "{\n", "{\n  "+flaw+"\n", 1)
+							fcode = code
+						}
+						enc.Encode(C08Case{Op: "c08", Id: id, Builtin: b.Name, Position: pos, Syntax: syn, Flaw: fname, Profile: embedRego(p, fcode, fhelper), Data: "[]"})
+						id++
+					}
 				}
 			}
 		}
